@@ -20,28 +20,56 @@ package handlers
 //@   modifies *
 
 // gin hands the handler a context whose Request and Writer are set.
+// C12: the agent protocol (parseAgentRequest) is reached only when
+//  - every configured request header that has a ": " separator and is not one of the
+//    two ignored names equals the request's header, compared case-insensitively,
+//  - the request URI is one of the configured ones (when any non-empty URI is configured),
+//  - the User-Agent equals the configured one (when configured);
+// the peer address handed on is the forwarded-for header behind a redirector and
+// the host part of the peer address otherwise; every configured response header is
+// set with the name before and the full value after its first ':'.
+//@ spec ignoredHdr(n) = ufs_lower(n) == ufs_lower("Connection") || ufs_lower(n) == ufs_lower("Accept-Encoding")
+//@ spec hdrOK(h, ctx, x) = (contains(x, ": ") && !ignoredHdr(ufs_before(x, ": "))) ==> ufs_lower(ufs_hdrget(ctx.Request.Header, ufs_before(x, ": "))) == ufs_lower(ufs_piece1(x, ": "))
 //@ func (h *HTTP) request(ctx *gin.Context)
 //@   requires nonnil: h != nil && ctx != nil && ctx.Request != nil && ctx.Writer != nil && h.Teamserver != nil && logr.LogrInstance != nil
 //@   modifies *
+//@   guard-call headers: "parseAgentRequest" forall(k, 0, len(h.Config.Headers), hdrOK(h, ctx, h.Config.Headers[k]))
+//@   guard-call uri:     "parseAgentRequest" (len(h.Config.Uris) > 0 && !(len(h.Config.Uris) == 1 && h.Config.Uris[0] == "")) ==> exists(i, 0, len(h.Config.Uris), h.Config.Uris[i] == ctx.Request.RequestURI)
+//@   guard-call agent:   "parseAgentRequest" h.Config.UserAgent == "" || h.Config.UserAgent == ufs_hdrget(ctx.Request.Header, "User-Agent")
+//@   guard-call peer:    "parseAgentRequest" arg(2) == ite(h.Config.BehindRedir, ufs_hdrget(ctx.Request.Header, "X-Forwarded-For"), ite(ufb_hostport(ctx.Request.RemoteAddr), ufs_hostof(ctx.Request.RemoteAddr), ctx.Request.RemoteAddr))
+//@   guard-call resphdr: "Header" arg(1) == ufs_before(Header, ":") && arg(2) == ufs_after(Header, ":")
+//@   loop "for _, Header := range h.Config.Headers"
+//@     invariant seen: valid && forall(k, 0, idx__, hdrOK(h, ctx, h.Config.Headers[k])) && ctx.Request != nil && h != nil
+//@   loop "for _, IgnoreHeader := range IgnoreHeaders"
+//@     invariant scan: idx__ <= 2 && (idx__ >= 1 ==> ufs_lower(NameValue[0]) != ufs_lower("Connection")) && (idx__ >= 2 ==> ufs_lower(NameValue[0]) != ufs_lower("Accept-Encoding"))
+//@   loop "for _, Uri := range h.Config.Uris"
+//@     invariant none: !valid && forall(k, 0, idx__, h.Config.Uris[k] != ctx.Request.RequestURI) && forall(k, 0, len(h.Config.Headers), hdrOK(h, ctx, h.Config.Headers[k]))
+//@   loop "for _, Header := range h.Config.Response.Headers"
+//@     invariant keep: ctx != nil && ctx.Request != nil && ctx.Writer != nil && h != nil && h.Teamserver != nil
 //@ func (h *HTTP) fake404(ctx *gin.Context)
 //@   requires nonnil: h != nil && ctx != nil && ctx.Request != nil && ctx.Writer != nil
 //@   modifies *
 //@ func (e *External) Request(ctx *gin.Context)
 //@   requires nonnil: e != nil && ctx != nil && ctx.Request != nil && ctx.Writer != nil && e.Teamserver != nil && logr.LogrInstance != nil
 //@   modifies *
+//@   guard-call peer: "parseAgentRequest" arg(2) == ite(ufb_hostport(ctx.Request.RemoteAddr), ufs_hostof(ctx.Request.RemoteAddr), ctx.Request.RemoteAddr)
 
 // Listener objects: Start only touches the listener object itself (the server it
 // spawns runs concurrently). Assumed at this boundary (gin / net/http inside).
 //@ func NewConfigHttp() (h *HTTP)
-//@   ensures new: h != nil && fresh(h)
+//@   ensures new: h != nil && fresh(h) && h.GinEngine != nil
 //@ func NewPivotSmb() (s *SMB)
 //@   ensures new: s != nil && fresh(s)
 //@ func NewExternal(WebSocketEngine any, Config ExternalConfig) (e *External)
 //@   ensures new: e != nil && fresh(e) && e.Config.Name == Config.Name && e.Config.Endpoint == Config.Endpoint
+// C12: only POST routes lead to the agent protocol handler; every other method
+// registered on the engine gets the decoy.
 //@ func (h *HTTP) Start()
-//@   trusted
-//@   requires nonnil: h != nil
+//@   requires nonnil: h != nil && h.GinEngine != nil && h.Teamserver != nil
 //@   modifies h.Active, h.Server, h.GinEngine, h.TLS
+//@   guard-call postonly: "GET|Any|PUT|PATCH|HEAD|OPTIONS|DELETE" forall(k, 0, len(arg(2)), fnname(arg(2)[k]) != "request")
+//@   guard-call posthandler: "POST" len(arg(2)) == 1 && fnname(arg(2)[0]) == "request"
+//@   guard-call decoy: "GET" len(arg(2)) == 1 && fnname(arg(2)[0]) == "fake404"
 //@ func (s *SMB) Start()
 //@   trusted
 //@   requires nonnil: s != nil
